@@ -32,3 +32,4 @@ def check(ctx):
     pure.check(ctx, [], ["emu_mps.optimatrix.optimiser", "emu_mps.optimatrix.permutations"])
     dark.sv_completeness(ctx)
     drivers.custom_interaction_matrix(ctx)
+    drivers.make_h_binding(ctx)
